@@ -240,6 +240,8 @@ class TheCheck(Check):
             self.expect[op] = ("ini", G.ini_expected(nodes, {}))
             ops.append(op)
         sts.append(Stream("ini-include-grammar", ops))
+        from checks import mtpure
+        sts.append(mtpure.stream(self))      # hidden shared state shows only with concurrent callers
         return sts
 
     # ---------------------------------------------------------------- oracle
